@@ -122,6 +122,9 @@ def run(ctx):
     c08_2(ctx)
     c08_triples(ctx)
     c08_3(ctx)
+    # builders emit spends in the reverse of bundle order: the cross-spend ephemeral rule must not depend on positions
+    from . import c01_effects
+    c01_effects.is_ephemeral_exact(ctx, "C08.1")
 
 
 def c08_dialect(ctx):
